@@ -30,6 +30,11 @@ pub struct Case {
     pub recs: Vec<Rec>,
     /// explicit `since` probes (in addition to the systematic ones) as offsets from the first timestamp
     pub extra_since: Vec<u64>,
+    /// the first timestamp is in the year 2100 instead of 1000 ns after the epoch: every log file is older (by its file
+    /// times) than every `since` that is asked for. Operation ids are wall-clock nanoseconds in the server; how they
+    /// relate to the times of the files must not matter
+    #[serde(default)]
+    pub far_future: bool,
 }
 
 fn rec_strategy(rotation: bool) -> BoxedStrategy<Rec> {
@@ -222,7 +227,7 @@ pub fn run_case(ctx: &Ctx, case: &Case) -> Outcome {
     use_dir(&dir);
     let max_size: u64 = std::env::var("NUN_MAX_OP_LOG_SIZE").ok().and_then(|s| s.parse().ok()).unwrap_or(1073741824);
     let mut stream = Some(Oplog::get_log_file_append_mode());
-    let mut ts: u64 = 1000;
+    let mut ts: u64 = if case.far_future { 4_102_444_800_000_000_000 } else { 1000 };
     let mut flags = Flags::default();
     let mut fail = None;
     let mut soft_fail: Option<(String, String)> = None;
@@ -349,7 +354,7 @@ fn sequences(alpha: &[Rec], len: usize) -> impl Iterator<Item = Case> + '_ {
             recs.push(alpha[i % n].clone());
             i /= n;
         }
-        Case { recs, extra_since: vec![] }
+        Case { recs, extra_since: vec![], far_future: false }
     })
 }
 
@@ -359,14 +364,14 @@ pub fn run(ctx: &Ctx, rep: &mut Report) {
     if small_max {
         // rotation workers: logs long enough to fill several files
         let n = ctx.amount(3000, 60_000);
-        let strat = (prop::collection::vec(rec_strategy(true), 0..400), prop::collection::vec(0..400u64, 0..3)).prop_map(|(recs, extra_since)| Case { recs, extra_since });
+        let strat = (prop::collection::vec(rec_strategy(true), 0..400), prop::collection::vec(0..400u64, 0..3), prop::bool::weighted(0.3)).prop_map(|(recs, extra_since, far_future)| Case { recs, extra_since, far_future });
         explore_with(ctx, rep, "rotation", n * 2, 400, strat, |c| run_case(ctx, c));
     } else {
         let n = ctx.amount(40_000, 1_000_000);
-        let strat = (prop::collection::vec(rec_strategy(false), 0..13), prop::collection::vec(0..40u64, 0..3)).prop_map(|(recs, extra_since)| Case { recs, extra_since });
+        let strat = (prop::collection::vec(rec_strategy(false), 0..13), prop::collection::vec(0..40u64, 0..3), prop::bool::weighted(0.3)).prop_map(|(recs, extra_since, far_future)| Case { recs, extra_since, far_future });
         explore(ctx, rep, "single-file", n * 2, strat, |c| run_case(ctx, c));
         let n2 = ctx.amount(300, 6000);
-        let strat = (prop::collection::vec(rec_strategy(false), 100..3000), prop::collection::vec(0..4000u64, 0..3)).prop_map(|(recs, extra_since)| Case { recs, extra_since });
+        let strat = (prop::collection::vec(rec_strategy(false), 100..3000), prop::collection::vec(0..4000u64, 0..3), prop::bool::weighted(0.3)).prop_map(|(recs, extra_since, far_future)| Case { recs, extra_since, far_future });
         explore_with(ctx, rep, "long-single-file", n2 * 2, 200, strat, |c| run_case(ctx, c));
     }
     // short logs exhaustively (every worker: these fit in one file under every configuration)
